@@ -18,7 +18,7 @@ meta = {
         "commands": [
             "cd /tmp/wt-<id> && /venv/bin/python demo.py   # original, then after `git apply patch.diff`",
             "cd /tmp/wt-<id> && /venv/bin/python -m pytest -q -p no:cacheprovider --timeout=900 -n 6 --deselect <2 permission tests>",
-            f"git -C /repo apply patch.diff && ./check {prop} --tier quick --no-evidence ; git -C /repo checkout -- .",
+            f"./check {prop} --tier quick --no-evidence against /repo with patch.diff applied (git -C /repo apply ... ; git -C /repo checkout -- . for the early seeds; a scratch copy of /repo via VERIF_REPO for later ones, so that background audits of /repo were not disturbed)",
         ],
     },
     "first_result": first,
